@@ -35,7 +35,7 @@ def Sym3.const (a : Sym3 K) : Sym3 (Jet K) :=
   ⟨⟨a.xx, 0⟩, ⟨a.yy, 0⟩, ⟨a.zz, 0⟩, ⟨a.xy, 0⟩, ⟨a.xz, 0⟩, ⟨a.yz, 0⟩⟩
 def V3.const (a : V3 K) : V3 (Jet K) := ⟨⟨a.x, 0⟩, ⟨a.y, 0⟩, ⟨a.z, 0⟩⟩
 
-theorem Sym3.ext' {a b : Sym3 K} (h1 : a.xx = b.xx) (h2 : a.yy = b.yy) (h3 : a.zz = b.zz)
+theorem Sym3.ext6 {a b : Sym3 K} (h1 : a.xx = b.xx) (h2 : a.yy = b.yy) (h3 : a.zz = b.zz)
     (h4 : a.xy = b.xy) (h5 : a.xz = b.xz) (h6 : a.yz = b.yz) : a = b := by
   cases a; cases b; simp_all
 
@@ -60,7 +60,7 @@ theorem inertia_rate_of_rotation (w r0 r1 r2 pB : V3 K) (IB : Sym3 K) :
                 (V3.jet r2 (rowRate w r0 r1 r2).2.2) (V3.const pB))
       = V3.cross w (rotV r0 r1 r2 pB) := by
   constructor
-  · apply Sym3.ext' <;>
+  · apply Sym3.ext6 <;>
       simp only [Sym3.ep, rotSym, Sym3.mulV, Sym3.const, V3.dot, V3.jet, rowRate, V3.sub, V3.smul, inertiaRate,
         Jet.add_ep, Jet.mul_ep, Jet.add_re, Jet.mul_re] <;> ring
   · apply V3.ext' <;>
@@ -203,7 +203,7 @@ example : (4 : Int) + 2 * (-2) = 0 := by decide
 theorem sv_swap (a b c : SV K) : SV.add a (SV.add b c) = SV.add (SV.add a c) b := by
   apply SV.ext' <;> apply V3.ext' <;> simp only [SV.add, V3.add] <;> ring
 
-theorem sv_swap' (a b c : SV K) : SV.add (SV.add a b) c = SV.add (SV.add a c) b := by
+theorem sv_swap2 (a b c : SV K) : SV.add (SV.add a b) c = SV.add (SV.add a c) b := by
   apply SV.ext' <;> apply V3.ext' <;> simp only [SV.add, V3.add] <;> ring
 
 mutual
@@ -214,7 +214,7 @@ theorem momentum_subtree (Fin Fext Rf : Nat → SV K) : ∀ (t : Tr K), EOM Fin 
       | mk _ _ heq hcs =>
         have ih := momentum_kids Fin Fext Rf cs hcs
         simp only [mulJT, Tr.bd, ih]
-        rw [sv_swap, heq, sv_swap']
+        rw [sv_swap, heq, sv_swap2]
 theorem momentum_kids (Fin Fext Rf : Nat → SV K) : ∀ (cs : List (Tr K)), (∀ c ∈ cs, EOM Fin Fext Rf c) →
     (mulJTs Fin cs).1 = SV.add (mulJTs Fext cs).1 (childReactions Rf cs)
   | [], _ => by simp [mulJTs, childReactions, SV.add_zero]
